@@ -368,3 +368,43 @@ Example b16_decode_examples :
   b16_decode [70; 48; 48; 102] = Ok [240; 15] /\ b16_decode [70] = Err E_SHORT /\
   b16_decode [48; 103] = Err (E_illegal 103) /\ b16_decode [49; 33] = Err (E_illegal 33).
 Proof. vm_compute. repeat split. Qed.
+
+(* ----------------------------------------- only alphabet characters pass *)
+
+Lemma values_some_forall val s vs : values val s = Some vs -> Forall (fun c => val c <> None) s.
+Proof.
+  revert vs. induction s as [|c r IH]; intros vs H; [constructor|].
+  cbn [values] in H. destruct (val c) eqn:V; [|discriminate].
+  destruct (values val r) as [vr|]; [|discriminate].
+  constructor; [rewrite V; discriminate|eapply IH; reflexivity].
+Qed.
+
+Theorem b64_accepts_only_alphabet s bs : b64_decode s = Ok bs ->
+  Nat.modulo (length s) 4 = 0%nat /\ Forall (fun c => c = 61 \/ val64 c <> None) s.
+Proof. intros H. apply b64_accepts_iff_wellformed in H. exact (spec_dec64_shape s bs H). Qed.
+
+Theorem b32_accepts_only_alphabet s bs : b32_decode s = Ok bs -> Forall (fun c => val32 c <> None) s.
+Proof.
+  intros H. apply b32_accepts_iff_wellformed in H. unfold spec_dec32, spec_dec_unpadded in H.
+  destruct (values val32 s) as [vs|] eqn:V; [|discriminate]. exact (values_some_forall _ _ _ V).
+Qed.
+
+Theorem b16_accepts_only_alphabet s bs : b16_decode s = Ok bs ->
+  Forall (fun c => val16 c <> None) s /\ Nat.modulo (length s) 2 = 0%nat.
+Proof.
+  intros H. apply b16_accepts_iff_wellformed in H. unfold spec_dec16, spec_dec_unpadded in H.
+  destruct (values val16 s) as [vs|] eqn:V; [|discriminate].
+  split; [exact (values_some_forall _ _ _ V)|].
+  assert (L : length vs = length s).
+  { clear H. revert vs V. induction s as [|c r IH]; intros vs V; cbn [values] in V.
+    - injection V as <-. reflexivity.
+    - destruct (val16 c); [|discriminate]. destruct (values val16 r) as [vr|]; [|discriminate].
+      injection V as <-. cbn [length]. f_equal. apply IH. reflexivity. }
+  destruct (Nat.ltb_spec (Nat.modulo (4 * length vs) 8) 4) as [Lt|Ge]; [|discriminate].
+  rewrite <- L. clear - Lt. revert Lt. generalize (length vs). intros n Lt. lia.
+Qed.
+
+Example only_alphabet_nonvacuous :
+  b64_decode [90; 103; 61; 61] = Ok [102] /\ val64 90 <> None /\ val64 33 = None /\ val32 87 = None /\
+  val16 71 = None /\ val16 102 = Some 15.
+Proof. vm_compute. repeat split; discriminate. Qed.
